@@ -9,7 +9,12 @@ package harness
 //   mkraccapp  app stream through the REAL marker MsgServer (x/marker/keeper.NewMsgServerImpl
 //              on a real app.App with real bank / authz / attribute / feegrant keepers):
 //              `probe` = one marker message on a marker configured per the op line,
-//              `xsetup`/`xfer` = a history of MsgTransferRequests under one authz grant.
+//              `xsetup`/`xfer` = a history of MsgTransferRequests / MsgIbcTransferRequests by
+//              two administrators under authz grants in every direction between them and the
+//              source account. MsgIbcTransferRequest runs on the real msg server of a marker
+//              keeper built by markerkeeper.NewKeeper over the app's own stores and keepers with
+//              a stand-in for the ibc transfer module (mkraccIbc: takes the token out of the
+//              sender's account into the channel's escrow account, records the call).
 
 import (
 	"context"
@@ -29,6 +34,8 @@ import (
 	sdk "github.com/cosmos/cosmos-sdk/types"
 	authtypes "github.com/cosmos/cosmos-sdk/x/auth/types"
 	banktypes "github.com/cosmos/cosmos-sdk/x/bank/types"
+	transfertypes "github.com/cosmos/ibc-go/v8/modules/apps/transfer/types"
+	clienttypes "github.com/cosmos/ibc-go/v8/modules/core/02-client/types"
 
 	"github.com/provenance-io/provenance/app"
 	"github.com/provenance-io/provenance/x/exchange"
@@ -384,7 +391,10 @@ type mkraccEnv struct {
 	base sdk.Context
 	ctx  sdk.Context
 	srv  markertypes.MsgServer
-	addr map[string]sdk.AccAddress
+	// msg server of the same marker keeper with the stand-in ibc transfer module
+	srvIbc markertypes.MsgServer
+	ibc    *mkraccIbc
+	addr   map[string]sdk.AccAddress
 	name map[string]string
 	gov  sdk.AccAddress
 	// current transfer history
@@ -413,7 +423,7 @@ func mkraccSetup(t *testing.T) *mkraccEnv {
 		// C caller/admin, U granter with a signing history, Z second admin, G holder of a burn grant,
 		// N address that receives new grants, H holder of circulating coins, P1..P3 recipients,
 		// F fresh account (sequence 0, never signed — what a smart contract account looks like).
-		for _, n := range []string{"C", "U", "Z", "G", "N", "H", "P1", "P2", "P3", "SA", "SB", "SD", "SE"} {
+		for _, n := range []string{"C", "K", "U", "Z", "G", "N", "H", "P1", "P2", "P3", "SA", "SB", "SD", "SE"} {
 			ad := sdk.AccAddress([]byte(fmt.Sprintf("vmkracc_%-12s", n))) // 20 bytes, distinct per name
 			e.addr[n] = ad
 			acc := a.AccountKeeper.NewAccountWithAddress(ctx, ad)
@@ -464,13 +474,53 @@ func mkraccSetup(t *testing.T) *mkraccEnv {
 		}
 		e.base = ctx
 		e.srv = markerkeeper.NewMsgServerImpl(a.MarkerKeeper)
+		// The app's marker keeper has the real ibc transfer keeper, which needs an open channel.
+		// A second marker keeper over the same store key and the same auth / bank / authz / feegrant /
+		// attribute / name keepers gets a stand-in instead; the bank keeper is wrapped so that
+		// NewKeeper does not register the marker send restriction a second time.
+		e.ibc = &mkraccIbc{bank: a.BankKeeper}
+		ik := markerkeeper.NewKeeper(a.AppCodec(), a.GetKey(markertypes.StoreKey), a.AccountKeeper,
+			mkraccBank{a.BankKeeper}, a.AuthzKeeper, a.FeeGrantKeeper, a.AttributeKeeper, a.NameKeeper, e.ibc, nil, nil)
+		e.srvIbc = markerkeeper.NewMsgServerImpl(ik)
 		mkraccE = e
 	})
 	mkraccE.t = t
 	return mkraccE
 }
 
+// mkraccBank is the app's bank keeper minus AppendSendRestriction (see mkraccSetup).
+type mkraccBank struct{ markertypes.BankKeeper }
+
+func (mkraccBank) AppendSendRestriction(banktypes.SendRestrictionFn) {}
+
+const (
+	mkraccPort    = "transfer"
+	mkraccChannel = "channel-7"
+)
+
+// mkraccIbc stands in for the ibc transfer module's msg server: like sendTransfer does for a
+// token native to this chain it moves the token from the sender to the channel's escrow
+// account (the context it is given carries the marker bypass), and it records the message.
+type mkraccIbc struct {
+	bank  markertypes.BankKeeper
+	calls []*transfertypes.MsgTransfer
+}
+
+func (s *mkraccIbc) Transfer(goCtx context.Context, msg *transfertypes.MsgTransfer) (*transfertypes.MsgTransferResponse, error) {
+	sender, err := sdk.AccAddressFromBech32(msg.Sender)
+	if err != nil {
+		return nil, err
+	}
+	escrow := transfertypes.GetEscrowAddress(msg.SourcePort, msg.SourceChannel)
+	if err := s.bank.SendCoins(goCtx, sender, escrow, sdk.NewCoins(msg.Token)); err != nil {
+		return nil, err
+	}
+	s.calls = append(s.calls, msg)
+	return &transfertypes.MsgTransferResponse{Sequence: uint64(len(s.calls))}, nil
+}
+
 type mkraccCfg struct {
+	acc2                  []string // rights of the second administrator K (transfer histories)
 	acc                   []string
 	mgr, gov, ft, gc, ctl bool
 	st, ty                string
@@ -486,6 +536,9 @@ func mkraccParseCfg(ws []string) mkraccCfg {
 	c := mkraccCfg{st: kvArg(ws, "st"), ty: kvArg(ws, "ty"), dest: kvArg(ws, "dest")}
 	if a := kvArg(ws, "acc"); a != "-" && a != "" {
 		c.acc = strings.Split(a, "+")
+	}
+	if a := kvArg(ws, "acc2"); a != "-" && a != "" {
+		c.acc2 = strings.Split(a, "+")
 	}
 	c.mgr = kvArg(ws, "mgr") == "1"
 	c.gov = kvArg(ws, "gov") == "1"
@@ -545,6 +598,13 @@ func (e *mkraccEnv) setMarker(ctx sdk.Context, c mkraccCfg, caller sdk.AccAddres
 			al = append(al, mkraccAccessByName[n])
 		}
 		grants = append(grants, markertypes.AccessGrant{Address: caller.String(), Permissions: al})
+	}
+	if len(c.acc2) > 0 {
+		var al markertypes.AccessList
+		for _, n := range c.acc2 {
+			al = append(al, mkraccAccessByName[n])
+		}
+		grants = append(grants, markertypes.AccessGrant{Address: e.addr["K"].String(), Permissions: al})
 	}
 	manager := e.addr["Z"]
 	if c.mgr {
@@ -724,8 +784,9 @@ func (e *mkraccEnv) probe(ws []string) string {
 	return "ok changed=" + mkraccB01(e.digest(ctx, caller) != before)
 }
 
-func (e *mkraccEnv) grantStr(ctx sdk.Context, from sdk.AccAddress) string {
-	a, _ := e.app.AuthzKeeper.GetAuthorization(ctx, e.addr["C"], from, markertypes.MarkerTransferAuthorization{}.MsgTypeURL())
+// grantStr renders the MarkerTransferAuthorization granter gave to grantee (`-` = none).
+func (e *mkraccEnv) grantStr(ctx sdk.Context, granter, grantee sdk.AccAddress) string {
+	a, _ := e.app.AuthzKeeper.GetAuthorization(ctx, grantee, granter, markertypes.MarkerTransferAuthorization{}.MsgTypeURL())
 	if a == nil {
 		return "-"
 	}
@@ -741,6 +802,12 @@ func (e *mkraccEnv) grantStr(ctx sdk.Context, from sdk.AccAddress) string {
 		}
 	}
 	return mkraccCoins(mta.TransferLimit) + ";" + JoinOr(al, "|")
+}
+
+// grantsStr: the four grants of a transfer history (source→C, C→source, source→K, K→source).
+func (e *mkraccEnv) grantsStr(ctx sdk.Context) string {
+	s, c, k := e.xfrom, e.addr["C"], e.addr["K"]
+	return fmt.Sprintf("g=%s r=%s kg=%s kr=%s", e.grantStr(ctx, s, c), e.grantStr(ctx, c, s), e.grantStr(ctx, s, k), e.grantStr(ctx, k, s))
 }
 
 var mkraccSrc = map[string]string{"self": "C", "user": "U", "fresh": "F", "module": "MOD", "marker": "RN", "market": "MKT", "absent": "X"}
@@ -759,8 +826,20 @@ func (e *mkraccEnv) xsetup(ws []string) string {
 		e.mint(ctx, maddr, 1000-bal)
 	}
 	e.mint(ctx, from, bal)
-	if g := kvArg(ws, "grant"); g != "-" && g != "" {
+	// grants in every direction between the source account and the two administrators
+	c1, k1 := e.addr["C"], e.addr["K"]
+	for _, gr := range []struct {
+		key              string
+		granter, grantee sdk.AccAddress
+	}{{"grant", from, c1}, {"rgrant", c1, from}, {"kgrant", from, k1}, {"krgrant", k1, from}} {
+		g := kvArg(ws, gr.key)
+		if g == "-" || g == "" {
+			continue
+		}
 		p := strings.SplitN(g, ";", 2)
+		if len(p) != 2 {
+			return "err:bad-op"
+		}
 		var allowed []sdk.AccAddress
 		if p[1] != "-" {
 			for _, n := range strings.Split(p[1], "|") {
@@ -771,7 +850,7 @@ func (e *mkraccEnv) xsetup(ws []string) string {
 		if err := auth.ValidateBasic(); err != nil {
 			return "err:invalid"
 		}
-		if err := e.app.AuthzKeeper.SaveGrant(ctx, e.addr["C"], from, auth, nil); err != nil {
+		if err := e.app.AuthzKeeper.SaveGrant(ctx, gr.grantee, gr.granter, auth, nil); err != nil {
 			return "err:savegrant"
 		}
 	}
@@ -783,19 +862,50 @@ func (e *mkraccEnv) xfer(ws []string) string {
 	if !ok {
 		return "err:bad-op"
 	}
+	admin := e.addr["C"]
+	if by := kvArg(ws, "by"); by != "" {
+		if by != "C" && by != "K" {
+			return "err:bad-op"
+		}
+		admin = e.addr[by]
+	}
 	to := e.addr[kvArg(ws, "to")]
-	msg := &markertypes.MsgTransferRequest{Amount: sdk.Coin{Denom: mkraccTok, Amount: sdkmath.NewIntFromBigInt(amt)},
-		Administrator: e.addr["C"].String(), FromAddress: e.xfrom.String(), ToAddress: to.String()}
-	before := e.app.BankKeeper.GetBalance(e.ctx, to, mkraccTok).Amount
-	err, pan := Try(e.ctx, func(ctx sdk.Context) error { _, err := e.srv.Transfer(ctx, msg); return err })
+	coin := sdk.Coin{Denom: mkraccTok, Amount: sdkmath.NewIntFromBigInt(amt)}
+	var f func(ctx sdk.Context) error
+	recvAt := to
+	switch kvArg(ws, "via") {
+	case "", "msg":
+		msg := &markertypes.MsgTransferRequest{Amount: coin, Administrator: admin.String(), FromAddress: e.xfrom.String(), ToAddress: to.String()}
+		f = func(ctx sdk.Context) error { _, err := e.srv.Transfer(ctx, msg); return err }
+	case "ibc":
+		// the receiver is an address on the other chain; the coins go to the channel's escrow account
+		recvAt = transfertypes.GetEscrowAddress(mkraccPort, mkraccChannel)
+		msg := &markertypes.MsgIbcTransferRequest{Administrator: admin.String(),
+			Transfer: transfertypes.MsgTransfer{SourcePort: mkraccPort, SourceChannel: mkraccChannel, Token: coin,
+				Sender: e.xfrom.String(), Receiver: to.String(), TimeoutHeight: clienttypes.NewHeight(1, 1000)}}
+		f = func(ctx sdk.Context) error { _, err := e.srvIbc.IbcTransfer(ctx, msg); return err }
+	default:
+		return "err:bad-op"
+	}
+	before := e.app.BankKeeper.GetBalance(e.ctx, recvAt, mkraccTok).Amount
+	ncalls := len(e.ibc.calls)
+	err, pan := Try(e.ctx, f)
 	if pan != "" {
 		return "panic:" + pan
 	}
 	if err != nil {
+		e.ibc.calls = e.ibc.calls[:ncalls]
 		return mkraccClass(err)
 	}
-	after := e.app.BankKeeper.GetBalance(e.ctx, to, mkraccTok).Amount
-	return fmt.Sprintf("ok grant=%s recv=%s", e.grantStr(e.ctx, e.xfrom), after.Sub(before).String())
+	if n := len(e.ibc.calls); n > ncalls {
+		// what the ibc module was asked to do: the token out of the source account, nothing else
+		if c := e.ibc.calls[n-1]; n != ncalls+1 || c.Sender != e.xfrom.String() || !c.Token.Equal(coin) || c.Receiver != to.String() {
+			return "ok ibc-call-differs-from-request"
+		}
+		e.ibc.calls = e.ibc.calls[:0]
+	}
+	after := e.app.BankKeeper.GetBalance(e.ctx, recvAt, mkraccTok).Amount
+	return fmt.Sprintf("ok %s recv=%s", e.grantsStr(e.ctx), after.Sub(before).String())
 }
 
 const mkraccScn = "mkrscn" // the marker of the message-driven scenarios
@@ -1053,11 +1163,14 @@ func driveMkraccApp(t *testing.T, rng *RNG, n int, out *Out) {
 				bal = 0
 			}
 		}
-		grant := "-"
-		var allow []string
-		limit := int64(0)
-		if src != "self" && src != "absent" && rng.Chance(75) {
-			limit = int64(3 + rng.Intn(30))
+		// grants: source→C (`grant`), and — none of which may ever authorise or be debited by a
+		// transfer that C signs — C→source (`rgrant`), source→K (`kgrant`), K→source (`krgrant`)
+		genGrant := func(pct int, ok bool) (string, int64, []string) {
+			if !ok || !rng.Chance(pct) {
+				return "-", 0, nil
+			}
+			limit := int64(3 + rng.Intn(30))
+			var allow []string
 			if rng.Chance(60) {
 				k := 1 + rng.Intn(3)
 				seen := map[string]bool{}
@@ -1073,53 +1186,113 @@ func driveMkraccApp(t *testing.T, rng *RNG, n int, out *Out) {
 			if rng.Chance(15) {
 				lim += ",5zzz"
 			}
-			grant = lim + ";" + JoinOr(allow, "|")
+			return lim + ";" + JoinOr(allow, "|"), limit, allow
 		}
-		emit(fmt.Sprintf("xsetup acc=%s st=%s ty=%s ft=%s src=%s grant=%s bal=%d", JoinOr(acc, "+"), st, ty, mkraccB01(ft), src, grant, bal))
+		other := src != "self" && src != "absent"
+		grant, limit, allow := genGrant(75, other)
+		rgrant, rlimit, rallow := genGrant(35, other)
+		kgrant, klimit, kallow := genGrant(30, src != "absent")
+		krgrant, _, _ := genGrant(15, other)
+		var acc2 []string
+		if ty == "restricted" {
+			switch k := rng.Intn(100); {
+			case k < 30:
+			case k < 65:
+				acc2 = []string{"transfer"}
+			case k < 78:
+				acc2 = []string{"transfer", "force_transfer"}
+			case k < 88:
+				acc2 = []string{"force_transfer"}
+			default:
+				acc2 = mkraccGenAcc(rng, ty, "transfer", 30)
+			}
+		}
+		setup := fmt.Sprintf("xsetup acc=%s st=%s ty=%s ft=%s src=%s grant=%s bal=%d", JoinOr(acc, "+"), st, ty, mkraccB01(ft), src, grant, bal)
+		if rgrant != "-" || kgrant != "-" || krgrant != "-" || len(acc2) > 0 {
+			setup += fmt.Sprintf(" rgrant=%s kgrant=%s krgrant=%s acc2=%s", rgrant, kgrant, krgrant, JoinOr(acc2, "+"))
+		}
+		emit(setup)
 		out.Count("xfer:src=" + src)
 		out.Count("xfer:grant=" + mkraccB01(grant != "-") + "/allow=" + mkraccB01(len(allow) > 0) + "/ft=" + mkraccB01(ft))
+		out.Count(fmt.Sprintf("xfer:grants g=%s r=%s kg=%s kr=%s", mkraccB01(grant != "-"), mkraccB01(rgrant != "-"), mkraccB01(kgrant != "-"), mkraccB01(krgrant != "-")))
 		steps := 1 + rng.Intn(5)
-		left := limit
-		okCount := 0
+		left := map[string]int64{"C": limit, "K": klimit}
+		okCount := map[string]int{}
 		for s := 0; s < steps; s++ {
+			by := "C"
+			if (len(acc2) > 0 && rng.Chance(30)) || rng.Chance(4) {
+				by = "K"
+			}
+			via := "msg"
+			if rng.Chance(35) {
+				via = "ibc"
+			}
+			byAcc, byGrant, byAllow := acc, grant, allow
+			if by == "K" {
+				byAcc, byGrant, byAllow = acc2, kgrant, kallow
+			}
+			// the limit amounts are chosen around: what is left of the grant this transfer should use,
+			// sometimes what a grant of another pair would allow
+			ref := left[by]
+			if by == "C" && rlimit > 0 && (ref == 0 || rng.Chance(25)) {
+				ref = rlimit
+			}
 			var amt int64
 			switch k := rng.Intn(100); {
-			case k < 15 && left > 0:
-				amt = left
+			case k < 15 && ref > 0:
+				amt = ref
 			case k < 25:
-				amt = left + 1
-			case k < 33 && left > 1:
-				amt = left - 1
+				amt = ref + 1
+			case k < 33 && ref > 1:
+				amt = ref - 1
 			case k < 37:
 				amt = 0
 			default:
-				if left > 1 {
-					amt = 1 + int64(rng.Intn(int(left)))/2
+				if ref > 1 {
+					amt = 1 + int64(rng.Intn(int(ref)))/2
 				} else {
 					amt = 1 + int64(rng.Intn(6))
 				}
 			}
 			to := Pick(rng, []string{"P1", "P2", "P3", "P1", "P2", "RD", "RN", "BL"})
-			if len(allow) > 0 && rng.Chance(50) {
-				to = Pick(rng, allow)
+			if len(byAllow) > 0 && rng.Chance(50) {
+				to = Pick(rng, byAllow)
+			} else if by == "C" && len(rallow) > 0 && rng.Chance(30) {
+				to = Pick(rng, rallow)
 			}
-			r := emit(fmt.Sprintf("xfer amt=%d to=%s", amt, to))
+			op := fmt.Sprintf("xfer amt=%d to=%s", amt, to)
+			if via != "msg" {
+				op += " via=" + via
+			}
+			if by != "C" {
+				op += " by=" + by
+			}
+			r := emit(op)
 			cls := strings.Fields(r)[0]
 			out.Count("xfer:res=" + cls)
+			out.Count("xfer:via=" + via + "/by=" + by + "/" + resClass(cls))
+			forced := via == "msg" && ft && contains(byAcc, "force_transfer")
+			self := src == "self" && by == "C"
+			others := rgrant != "-" || krgrant != "-" || (by == "C" && kgrant != "-") || (by == "K" && grant != "-")
 			if cls == "ok" {
-				if strings.Contains(r, "grant=") && grant != "-" && !(ft && contains(acc, "force_transfer")) && src != "self" {
-					left -= amt
-					if okCount > 0 {
+				if byGrant != "-" && !forced && !self {
+					left[by] -= amt
+					if okCount[by] > 0 {
 						out.Count("xfer:ok-after-partial-use")
-						if len(allow) > 0 && !contains(allow, to) {
+						if len(byAllow) > 0 && !contains(byAllow, to) {
 							out.Count("xfer:ok-after-partial-use-offlist")
 						}
 					}
-					okCount++
+					okCount[by]++
+					if others {
+						out.Count("xfer:ok-under-grant-with-other-grants-present/via=" + via)
+					}
 				}
-				if src != "self" && ft && contains(acc, "force_transfer") {
+				if !self && forced {
 					out.Count("xfer:forced-ok/src=" + src)
 				}
+			} else if !self && !forced && byGrant == "-" && cls == "err:noauthz" && others {
+				out.Count("xfer:refused-no-grant-of-this-pair-though-others-exist/via=" + via)
 			}
 			if cls == "err:forcedfrom" {
 				out.Count("xfer:forced-refused/src=" + src)
@@ -1134,7 +1307,8 @@ var mkraccShards = flag.Int("mkracc-shards", 16, "number of shards the configura
 // subset of the rights valid for the marker type × manager × status × type × forced-transfer
 // flag × governance signer × governance-control flag × the operation's own extra dimension)
 // and of single transfers (rights × status × type × flag × source kind × grant shape ×
-// recipient × amount class). Shard i of k takes the configurations with index ≡ i (mod k);
+// grant in the other direction (administrator → source) × endpoint (MsgTransferRequest /
+// MsgIbcTransferRequest) × recipient × amount class). Shard i of k takes the configurations with index ≡ i (mod k);
 // the quick tier takes every fourth of those (which fourth depends on the seed), the thorough
 // tier all of them. Returns the number of histories written.
 func (e *mkraccEnv) sweep(out *Out, emit func(string) string) int {
@@ -1232,25 +1406,51 @@ func (e *mkraccEnv) sweep(out *Out, emit func(string) string) int {
 							if grant != "-" && (src == "self" || src == "absent") {
 								continue
 							}
-							for _, to := range []string{"P1", "RD", "RN", "BL"} {
-								for _, amt := range []int{0, 4, 10, 11, 25} {
-									// rejected on status / type before anything else is looked at: one representative
-									if (st != "active" || ty != "restricted") && (to != "P1" || amt != 4) {
-										continue
+							// a grant in the other direction (administrator → source) and the ibc endpoint
+							for _, rgrant := range []string{"-", "10mkrtok;-"} {
+								if rgrant != "-" && (src == "self" || src == "absent") {
+									continue
+								}
+								for _, via := range []string{"msg", "ibc"} {
+									for _, to := range []string{"P1", "RD", "RN", "BL"} {
+										for _, amt := range []int{0, 4, 10, 11, 25} {
+											if via == "msg" {
+												// rejected on status / type before anything else is looked at: one representative
+												if (st != "active" || ty != "restricted") && (to != "P1" || amt != 4) {
+													continue
+												}
+											} else {
+												// the ibc endpoint does not look at the status: two representatives off active
+												if ty != "restricted" && (to != "P1" || amt != 4) {
+													continue
+												}
+												if st != "active" && (to != "P1" || (amt != 4 && amt != 11)) {
+													continue
+												}
+											}
+											if !take() {
+												continue
+											}
+											bal := 20
+											if src == "absent" {
+												bal = 0
+											}
+											out.Comment(fmt.Sprintf("history %d", h))
+											h++
+											setup := fmt.Sprintf("xsetup acc=%s st=%s ty=%s ft=%s src=%s grant=%s bal=%d", acc, st, ty, mkraccB01(ft), src, grant, bal)
+											if rgrant != "-" {
+												setup += " rgrant=" + rgrant
+											}
+											emit(setup)
+											op := fmt.Sprintf("xfer amt=%d to=%s", amt, to)
+											if via != "msg" {
+												op += " via=" + via
+											}
+											r := emit(op)
+											out.Count("sweep:xfer")
+											out.Count("sweep:xfer:via=" + via + "/rgrant=" + mkraccB01(rgrant != "-") + "/res=" + resClass(r))
+										}
 									}
-									if !take() {
-										continue
-									}
-									bal := 20
-									if src == "absent" {
-										bal = 0
-									}
-									out.Comment(fmt.Sprintf("history %d", h))
-									h++
-									emit(fmt.Sprintf("xsetup acc=%s st=%s ty=%s ft=%s src=%s grant=%s bal=%d", acc, st, ty, mkraccB01(ft), src, grant, bal))
-									r := emit(fmt.Sprintf("xfer amt=%d to=%s", amt, to))
-									out.Count("sweep:xfer")
-									out.Count("sweep:xfer:res=" + resClass(r))
 								}
 							}
 						}
